@@ -1,3 +1,4 @@
+import Svgbob.Proofs.SourceConstants
 import Svgbob.Proofs.RectSound
 import Svgbob.Proofs.TableLocal
 import Svgbob.Proofs.RectStrokes
@@ -499,5 +500,15 @@ hypothesis. -/
 example : eDash.ch = '-' ∧ eBar.ch = '|' ∧ ePlus.ch = '+' := by decide +kernel
 example : ∀ d, (axisFun eBar Entry.empty eDash ePlus) d ∈ nbEntries := by
   intro d; cases d <;> simp [axisFun, nbEntries]
+
+/-- the `- | +` rows ask their neighbours "do you overlap this stub at least weakly / strongly":
+the levels and their order are the source's -/
+theorem signal_levels_are_the_sources :
+    ([Signal.faint, .weak, .medium, .strong].all fun s =>
+      Gen.signalIntensity.lookup s.sourceName == some s.intensity) = true ∧
+    Gen.signalIntensity.length = 4 ∧
+    Gen.overlapComparison = "signal >= required" ∧
+    Gen.overlapLevels = [("line_overlap", "Medium"), ("line_strongly_overlap", "Strong"),
+      ("line_weakly_overlap", "Weak")] := signal_levels_match_source
 
 end Svgbob.C03
